@@ -238,6 +238,13 @@ func (c01) Eval(c *Chooser, env *Env) *Outcome {
 	case 3:
 		w.Cwd = mw.Repos[0].Root
 		w.Args = flags
+		if c.Weighted("world.linkloops", 1, 5) {
+			// symbolic links in the walked directory that lead back into it (a "current" link, a backup link)
+			wd := mw.Repos[0].Root + "/.github/workflows"
+			w.Disk.Symlink(wd+"/current", ".")
+			w.Disk.Symlink(wd+"/latest", ".")
+			w.Disk.Symlink(wd+"/up", "..")
+		}
 	case 4:
 		src := w.Disk.Files[mw.AbsArgs[0]]
 		stdin = &faultyReader{data: src, fail: -1}
